@@ -199,8 +199,14 @@ class GenericCallAdapter(Adapter):
 
         old_node_kwargs = {kw.arg: kw.value for kw in old_node.keywords}
 
+        # position of the keyword arguments in the old call,
+        # new arguments are inserted in front of the next argument which exists already
+        old_kwargs_pos = {
+            kw.arg: len(old_node.args) + pos
+            for pos, kw in enumerate(old_node.keywords)
+        }
+
         to_insert = []
-        insert_pos = 0
         for key, new_value_element in new_kwargs.items():
             if new_value_element.is_default:
                 continue
@@ -218,20 +224,18 @@ class GenericCallAdapter(Adapter):
                 ).assign(old_value_element, node, new_value_element.value)
 
                 if to_insert:
-                    for key, value in to_insert:
+                    for new_key, value in to_insert:
 
                         yield CallArg(
                             flag="fix",
                             file=self.context.file._source,
                             node=old_node,
-                            arg_pos=insert_pos,
-                            arg_name=key,
+                            arg_pos=old_kwargs_pos[key],
+                            arg_name=new_key,
                             new_code=self.context.file._value_to_code(value),
                             new_value=value,
                         )
                     to_insert = []
-
-                insert_pos += 1
 
         if to_insert:
 
@@ -241,7 +245,7 @@ class GenericCallAdapter(Adapter):
                     flag="fix",
                     file=self.context.file._source,
                     node=old_node,
-                    arg_pos=insert_pos,
+                    arg_pos=None,
                     arg_name=key,
                     new_code=self.context.file._value_to_code(value),
                     new_value=value,
